@@ -567,6 +567,72 @@ Example C07_oe_ex_set_whitelist :
 Proof. vm_compute. repeat split; reflexivity. Qed.
 
 
+(* =====================================================================================
+   Part 3 — "the factory minimum in force" is what governance last decided.
+   The factories' sudo UpdateParams (Params.update_params: the helper shared by the base,
+   vending and open-edition factories) is last-writer-wins on min_mint_price, whatever
+   else the same proposal sets; the minters read the factory's parameters at call time.
+   Hence after an accepted proposal that supplies a minimum c, every price-setting
+   operation a minter accepts is at or above c.  (The correspondence checks the premise on
+   the real factories against the harness's own ledger of governance decisions: CGov cases.)
+   ===================================================================================== *)
+From LP Require Import Params ParamsProofs C07GovProofs.
+
+Theorem C07_gov_minimum_is_last_supplied : forall p m p',
+  update_params p m = Ok p' ->
+  cp_min_mint_price p' = (match cm_min_mint_price m with Some c => c | None => cp_min_mint_price p end) /\
+  (forall c, cm_min_mint_price m = Some c -> c_denom c = NATIVE) /\
+  cp_creation_fee p' = (match cm_creation_fee m with Some f => f | None => cp_creation_fee p end).
+Proof. exact gov_min_after. Qed.
+
+Theorem C07_gov_minimum_after_sequence : forall ms p,
+  cp_min_mint_price (apply_seq base_sudo p ms) =
+  fold_left (fun a m => match cm_min_mint_price m with Some c => c | None => a end)
+            (filter base_accepts ms) (cp_min_mint_price p).
+Proof. exact gov_min_sequence. Qed.
+
+Theorem C07_gov_floor_update_price : forall p p' m c, update_params p m = Ok p' -> cm_min_mint_price m = Some c ->
+  forall vr s e fp wv x s' ms,
+  fp_min_price fp = c_amount (cp_min_mint_price p') ->
+  step vr s e fp wv (OUpdateMintPrice x) = Ok (s', ms) -> c_amount c <= x.
+Proof. exact gov_floor_update_price. Qed.
+
+Theorem C07_gov_floor_update_discount : forall p p' m c, update_params p m = Ok p' -> cm_min_mint_price m = Some c ->
+  forall vr s e fp wv x s' ms,
+  fp_min_price fp = c_amount (cp_min_mint_price p') ->
+  step vr s e fp wv (OUpdateDiscountPrice x) = Ok (s', ms) -> c_amount c <= x.
+Proof. exact gov_floor_update_discount. Qed.
+
+Theorem C07_gov_floor_set_whitelist : forall p p' m c, update_params p m = Ok p' -> cm_min_mint_price m = Some c ->
+  forall vr s e fp wv wok w nv s' ms,
+  fp_min_price fp = c_amount (cp_min_mint_price p') ->
+  step vr s e fp wv (OSetWhitelist wok w (Some nv)) = Ok (s', ms) -> c_amount c <= wv_price nv.
+Proof. exact gov_floor_set_whitelist. Qed.
+
+Theorem C07_oe_gov_floor_update_price : forall p p' m c, update_params p m = Ok p' -> cm_min_mint_price m = Some c ->
+  forall vr s e fp wv x s' ms,
+  ofp_min_price fp = c_amount (cp_min_mint_price p') ->
+  ostep vr s e fp wv (EUpdateMintPrice x) = Ok (s', ms) -> c_amount c <= x.
+Proof. exact gov_floor_oe_update_price. Qed.
+
+Theorem C07_oe_gov_floor_set_whitelist : forall p p' m c, update_params p m = Ok p' -> cm_min_mint_price m = Some c ->
+  forall vr s e fp wv wok w nv s' ms,
+  ofp_min_price fp = c_amount (cp_min_mint_price p') ->
+  ostep vr s e fp wv (ESetWhitelist wok w (Some nv)) = Ok (s', ms) -> c_amount c <= wv_price nv.
+Proof. exact gov_floor_oe_set_whitelist. Qed.
+
+(* non-vacuity: a proposal that raises the minimum to 150 together with a new creation fee *)
+Example C07_gov_ex_fee_and_minimum :
+  let p0 := mkCP 1 [2] false (mkCoin 0 5000) (mkCoin 0 50) 1000 604800 in
+  let m := mkCM None None None None (Some (mkCoin 0 6000)) (Some (mkCoin 0 150)) None None in
+  match update_params p0 m with
+  | Ok p1 => cp_min_mint_price p1 = mkCoin 0 150 /\ cp_creation_fee p1 = mkCoin 0 6000 /\
+             is_ok (step ex_plain ex_s0 (mkEnv 500 10 [] 20) (mkFP 150 0 1000 0 0 10000 500 50 604800) None (OUpdateMintPrice 149)) = false /\
+             is_ok (step ex_plain ex_s0 (mkEnv 500 10 [] 20) (mkFP 150 0 1000 0 0 10000 500 50 604800) None (OUpdateMintPrice 150)) = true
+  | Err => False
+  end.
+Proof. vm_compute. repeat split; reflexivity. Qed.
+
 Print Assumptions C07_create_ok.
 Print Assumptions C07_update_price_ok.
 Print Assumptions C07_update_discount_ok.
@@ -605,3 +671,10 @@ Print Assumptions C07_oe_quote_when_public.
 Print Assumptions C07_oe_public_buyer_pays_public_price.
 Print Assumptions C07_oe_denom_refuted.
 Print Assumptions C07_oe_update_price_denom_if_factory_denom_unchanged.
+Print Assumptions C07_gov_minimum_is_last_supplied.
+Print Assumptions C07_gov_minimum_after_sequence.
+Print Assumptions C07_gov_floor_update_price.
+Print Assumptions C07_gov_floor_update_discount.
+Print Assumptions C07_gov_floor_set_whitelist.
+Print Assumptions C07_oe_gov_floor_update_price.
+Print Assumptions C07_oe_gov_floor_set_whitelist.
